@@ -134,6 +134,23 @@ class SqrtScaling(ScalingFunction):
         return scale * scale - 100.0
 
 
+from pydrobert.speech.filters import Fbank
+
+
+class GainFbank(Fbank):
+    """A user's variant of the library's Fbank: every filter at half the gain.  It overrides the two documented methods that
+    describe a filter in the frequency domain and leaves the rest (impulse response, supports) to the base class.  Alias "vfgainfbank"."""
+
+    aliases = {"vfgainfbank"}
+
+    def get_frequency_response(self, filt_idx, width, half=False):
+        return 0.5 * super().get_frequency_response(filt_idx, width, half)
+
+    def get_truncated_response(self, filt_idx, width):
+        start, res = super().get_truncated_response(filt_idx, width)
+        return start, 0.5 * res
+
+
 class WelchWindow(WindowFunction):
     """A user's window, written against the documented interface: the Welch (parabolic) window, scaled to unit sum.
     Alias "vfwelch"."""
